@@ -357,12 +357,21 @@ def finish(mod, tier, seed, m, problems, wall):
         "wall_s": round(wall, 2),
         "violations": len(new_viol),
     }
-    os.makedirs(EVIDENCE, exist_ok=True)
-    tmp = os.path.join(EVIDENCE, f".{pid}.json.tmp")
+    evdir = EVIDENCE
+    if os.environ.get("VT_NOEVIDENCE"):
+        # mutation self-tests against a scratch worktree must not overwrite
+        # the evidence of the real tree
+        import tempfile
+        evdir = tempfile.mkdtemp(prefix="vt_ev_")
+    os.makedirs(evdir, exist_ok=True)
+    tmp = os.path.join(evdir, f".{pid}.json.tmp")
     with open(tmp, "w") as f:
         json.dump(ev, f, indent=1, sort_keys=True)
         f.write("\n")
-    os.replace(tmp, os.path.join(EVIDENCE, f"{pid}.json"))
+    os.replace(tmp, os.path.join(evdir, f"{pid}.json"))
+    if evdir != EVIDENCE:
+        import shutil
+        shutil.rmtree(evdir, ignore_errors=True)
     for ln in lines:
         print(ln)
     if new_viol:
